@@ -292,10 +292,9 @@ Weighted == <<"addsp", "addpar", "setpar", "setpar", "setsp", "setsp", "addrx", 
               "init", "init", "build", "sim", "sim", "sim", "simitf", "simitf", "seed", "copy", "copy", "pairsim", "pairsim", "pairsim">>
 GNextSim == /\ Len(h) < HLen
             /\ \E o \in {RandomElement(DOMAIN w.objs)} :
-               \E kind \in {Weighted[RandomElement(1..Len(Weighted))]} :
-                 LET S == {a \in ActsOf(kind, o) : Fits(a)} IN
-                 IF S = {} THEN Step(Act("init", o, 0, "", Zero, ""))
-                 ELSE \E a \in {RandomElement(S)} : Step(a)
+               LET Cand(k) == {a \in ActsOf(Weighted[k], o) : Fits(a)}
+                   avail == {k \in 1..Len(Weighted) : Cand(k) # {}} IN
+               \E k \in {RandomElement(avail)} : \E a \in {RandomElement(Cand(k))} : Step(a)
 
 \* ------------------------------------------------------------------ initial world
 RECURSIVE FoldOp(_, _, _)
@@ -330,7 +329,9 @@ PropCopy == [][last'.copyeq]_vars
 PropPrefix == [][last'.prefix]_vars
 \* a successful initialisation makes the vectors current
 PropInit == [][(last'.op = "init" /\ last'.out = "ok") => VectorsCurrent(w', last'.o)]_vars
-View == w
+\* the history is left out of the fingerprint, its length is kept: every history up to the bound is explored
+\* (a world reached first by a longer history must not hide what a shorter one can still do)
+View == <<w, Len(h)>>
 
 \* ------------------------------------------------------------------ emission
 EncSlots(s) == [j \in 1..Len(s) |-> s[j]]
@@ -363,10 +364,18 @@ XV1 == {I(4)}
 XV2 == {I(0), I(6)}
 PV1 == {I(2)}
 PV2 == {I(1), R(1, 2), I(3)}
-ModesPlain == {"det", "sto", "vol", "delay"}
+ModesPlain == {"det", "sto", "vol", "delay", "dvol"}      \* dvol: delay + volume simulator
 ModesSmall == {"det", "sto"}
+ModesDet == {"det"}
+ModesSto == {"sto"}
+ModesCell == {"cell"}
+RxOne == {1}
+ParK1 == {"k1"}
+PreSp123 == <<1, 2, 3>>
+PreRx1 == <<1>>
+PreRules1 == <<1>>
 ModesLin == {"sto", "cell"}
-ModesLinAll == {"det", "sto", "vol", "delay", "cell"}
+ModesLinAll == {"det", "sto", "vol", "delay", "dvol", "cell"}
 Seeds1 == {7}
 Seeds2 == {7, 11}
 \* C08 exhaustive alphabet: 2 reactions, 2 parameters, 1 rule
@@ -389,5 +398,9 @@ PreRxLin == <<13, 1, 2, 9>>
 PreRxLin0 == <<13>>
 PreRulesLin == <<1, 4>>
 PreLinAll == <<1, 2, 3, 4, 5, 6, 7, 8, 9, 10, 11, 12, 13, 14, 15, 16>>
+\* two growing / dividing lineage models for the result objects (trees produced by py_SimulateCellLineage)
+PreLinTreeA == <<1, 6, 12, 16>>
+PreLinTreeB == <<2, 5, 7, 13>>
+PreSetTree == <<<<"k1", I(1)>>, <<"k2", I(3)>>, <<"g", R(1, 4)>>, <<"vdiv", I(2)>>, <<"gm", R(1, 10)>>, <<"ke", R(1, 100)>>>>
 PreSetLin == <<<<"k1", I(1)>>, <<"k2", I(3)>>, <<"g", R(1, 4)>>, <<"vdiv", I(3)>>, <<"gm", R(1, 10)>>, <<"ke", R(1, 100)>>>>
 =============================================================================
